@@ -8,6 +8,8 @@ import (
 	"time"
 
 	"github.com/lugu/qiloop/bus"
+	qnet "github.com/lugu/qiloop/bus/net"
+	rc "verif/refcodec"
 
 	"verif/gen/probe"
 	"verif/stuck"
@@ -39,7 +41,7 @@ type c16sub struct {
 func (o *c16obj) acked() int64 { return atomic.LoadInt64(&o.ackStamp) }
 
 func c16(c *wk.Ctx) {
-	c.Note("rule", "each plan hosts a fresh Probe service and runs a PRNG sequence, then 2-8 concurrent goroutines, of: Service.Add (new object), call work(token) through a proxy, SubscribeTick, Service.Remove, remote terminate() through the object's proxy, removal of an already removed id, remote terminate of a removed object, calls after removal. Oracle: ids returned by Add are unique among live objects; for every object whose removal was acknowledged (Remove returned nil / terminate replied): its OnTerminate hook ran exactly once at quiescence (0 for live objects), every call started after the acknowledgement returns an error and never reaches the object (per-token execution counter), its subscribers' channels get closed (quiescence detector); every object still live answers correctly at the end. Distinct non-trivial = distinct plans with at least one acknowledged removal followed by a call to the removed object.")
+	c.Note("rule", "each plan hosts a fresh Probe service and runs a PRNG sequence, then 2-8 concurrent goroutines, of: Service.Add (new object), call work(token) through a proxy, SubscribeTick, Service.Remove, remote terminate() through the object's proxy, removal of an already removed id, remote terminate of a removed object, calls after removal. Oracle: ids returned by Add are unique among live objects; for every object whose removal was acknowledged (Remove returned nil / terminate replied): its OnTerminate hook ran exactly once at quiescence (0 for live objects), every call started after the acknowledgement returns an error and never reaches the object (per-token execution counter), its subscribers' channels get closed (quiescence detector); every object still live answers correctly at the end. Stream crowd: one object with 3-24 registrations spread over 1-5 raw connections x 3 signals/properties (+ the generated proxies of a session) is removed or terminates itself: every (connection, signal) with an acknowledged registration receives the termination error, every proxy channel closes, the hook ran once, the sibling answers. Distinct non-trivial = distinct plans with at least one acknowledged removal followed by a call to the removed object.")
 	var w *world
 	defer func() {
 		if w != nil {
@@ -68,6 +70,220 @@ func c16(c *wk.Ctx) {
 		n++
 		c16one(c, i, rng, w, sess, fmt.Sprintf("P%d", n))
 	})
+	c.Cases("crowd", c.Pick(150, 6000), func(i int, rng *rand.Rand) {
+		if w == nil || n%60 == 0 {
+			if w != nil {
+				sess.Terminate()
+				w.close()
+			}
+			var err error
+			w, err = newWorld("unix", nil)
+			if err == nil {
+				sess, err = w.session()
+			}
+			if err != nil {
+				c.Inconclusive("crowd", i, "world: "+err.Error())
+				w = nil
+				return
+			}
+		}
+		n++
+		c16crowd(c, i, rng, w, sess, fmt.Sprintf("Q%d", n))
+	})
+}
+
+// c16crowd: one object with many registrations (3-24, spread over 1-5 raw connections and the three
+// signals / properties of the interface, plus the generated proxies of a session) is removed or
+// terminates itself: every (connection, signal) with an acknowledged registration must receive the
+// termination error for that signal, every proxy channel must get closed, the siblings are unaffected.
+func c16crowd(c *wk.Ctx, i int, rng *rand.Rand, w *world, sess bus.Session, name string) {
+	ps, err := w.addProbe(name, 2, nil)
+	if err != nil {
+		c.Inconclusive("crowd", i, "addProbe: "+err.Error())
+		return
+	}
+	defer ps.service.Terminate()
+	var target probe.ProbeProxy
+	for try := 0; ; try++ {
+		target, err = proxyFor(sess, ps, ps.objs[1])
+		if err == nil {
+			break
+		}
+		if try > 2000 {
+			c.Inconclusive("crowd", i, "proxy: "+err.Error())
+			return
+		}
+		time.Sleep(time.Millisecond)
+	}
+	obj := ps.objs[1].id
+	meta := target.Proxy().MetaObject()
+	var sigs []uint32
+	for _, n := range [][2]string{{"tick", "(L)"}, {"other", "(L)"}} {
+		id, err := meta.SignalID(n[0], n[1])
+		if err != nil {
+			c.Inconclusive("crowd", i, "meta: "+err.Error())
+			return
+		}
+		sigs = append(sigs, id)
+	}
+	if id, err := meta.PropertyID("level", "i"); err == nil {
+		sigs = append(sigs, id)
+	}
+	nConn := 1 + rng.Intn(5)
+	total := 3 + rng.Intn(22)
+	type reg struct {
+		conn int
+		sig  uint32
+	}
+	var progress int64
+	var mu sync.Mutex
+	want := map[reg]bool{} // acknowledged registrations
+	told := map[reg]int{}  // termination errors received
+	conns := make([]*rawConn, nConn)
+	for k := range conns {
+		rcn, err := dialRaw(w.addr)
+		if err == nil {
+			var ok bool
+			if ok, err = rcn.authenticate("", ""); err == nil && !ok {
+				err = fmt.Errorf("refused")
+			}
+		}
+		if err != nil {
+			c.Inconclusive("crowd", i, "raw connection: "+err.Error())
+			return
+		}
+		conns[k] = rcn
+		defer rcn.close()
+	}
+	useProxies := rng.Intn(2) == 0
+	var proxyClosed [3]int32
+	nProxy := 0
+	// registrations, in a PRNG order over connections and signals
+	handler := uint64(rng.Int63())
+	for k := 0; k < total; k++ {
+		r := reg{rng.Intn(nConn), sigs[rng.Intn(len(sigs))]}
+		handler++
+		args := rc.Encode(rc.TupleOf(rc.T(rc.Uint32), rc.T(rc.Uint32), rc.T(rc.Uint64)), rc.Tup{obj, r.sig, handler})
+		f, err := conns[r.conn].call(ps.id, obj, 0, args, nil)
+		if err != nil {
+			c.Inconclusive("crowd", i, "registerEvent: "+err.Error())
+			return
+		}
+		if f.H.Type == qnet.Reply {
+			want[r] = true
+		}
+		if useProxies && k == total/2 {
+			watch := func(slot int, closed func()) {
+				nProxy++
+				go func() { closed(); atomic.StoreInt32(&proxyClosed[slot], 1); atomic.AddInt64(&progress, 1) }()
+			}
+			if _, ch, err := target.SubscribeTick(); err == nil {
+				watch(0, func() {
+					for range ch {
+					}
+				})
+			}
+			if _, ch, err := target.SubscribeOther(); err == nil {
+				watch(1, func() {
+					for range ch {
+					}
+				})
+			}
+			if _, ch, err := target.SubscribeLevel(); err == nil {
+				watch(2, func() {
+					for range ch {
+					}
+				})
+			}
+		}
+	}
+	for k, rcn := range conns {
+		k, rcn := k, rcn
+		go func() {
+			for {
+				f, err := rcn.recv(0)
+				if err != nil {
+					return
+				}
+				if f.H.Type == qnet.Error && f.H.Service == ps.id && f.H.Object == obj {
+					mu.Lock()
+					told[reg{k, f.H.Action}]++
+					mu.Unlock()
+					atomic.AddInt64(&progress, 1)
+				}
+			}
+		}()
+	}
+	how := "Service.Remove"
+	if rng.Intn(2) == 0 {
+		how = "remote terminate"
+		err = target.Terminate(obj)
+	} else {
+		err = ps.service.Remove(obj)
+	}
+	detail := map[string]interface{}{"service": name, "connections": nConn, "registrations_attempted": total, "registrations_acknowledged": len(want), "proxy_subscriptions": nProxy, "removal": how}
+	if err != nil {
+		c.Viol("crowd", i, "remove=error", how+" of a live object failed: "+err.Error(), detail)
+		return
+	}
+	allTold := func() bool {
+		mu.Lock()
+		defer mu.Unlock()
+		for r := range want {
+			if told[r] == 0 {
+				return false
+			}
+		}
+		for k := 0; k < 3; k++ {
+			if useProxies && k < nProxy && atomic.LoadInt32(&proxyClosed[k]) == 0 {
+				return false
+			}
+		}
+		return true
+	}
+	v, dump := stuck.WaitFunc(allTold, &progress, 3*time.Minute)
+	switch v {
+	case stuck.Stuck:
+		mu.Lock()
+		missing := ""
+		for r := range want {
+			if told[r] == 0 {
+				missing += fmt.Sprintf("[connection %d signal %d] ", r.conn, r.sig)
+			}
+		}
+		mu.Unlock()
+		detail["not_told"] = missing
+		detail["proxy_channels_closed"] = fmt.Sprint(proxyClosed[:nProxy])
+		detail["dump"] = clipDump(dump)
+		c.Viol("crowd", i, "removed=subscriber-not-told", "a subscriber of a removed object was never told", detail)
+	case stuck.Watchdog:
+		c.Inconclusive("crowd", i, "watchdog")
+		return
+	}
+	if n := ps.objs[1].impl.Terminated(); n != 1 {
+		c.Viol("crowd", i, fmt.Sprintf("removed=terminated-%d-times", n), fmt.Sprintf("termination hook ran %d times", n), detail)
+	}
+	first, err := proxyFor(sess, ps, ps.objs[0])
+	if err == nil {
+		var res string
+		if res, err = first.Work(7, "sibling"); err == nil && res != svc.F(7, "sibling") {
+			err = fmt.Errorf("wrong result %q", res)
+		}
+	}
+	if err != nil {
+		c.Viol("crowd", i, "live=unreachable", "the sibling of a removed object does not answer: "+err.Error(), detail)
+	}
+	if _, err := target.Work(8, "gone"); err == nil || ps.objs[1].impl.ExecCount(8) != 0 {
+		c.Viol("crowd", i, "removed=call-succeeded", "a call after the acknowledged removal succeeded or reached the object", detail)
+	}
+	c.Count("crowd_registrations_acknowledged", int64(len(want)))
+	c.Max("max_registrations_on_one_removed_object", int64(len(want)+nProxy))
+	if len(want)+nProxy >= 3 {
+		c.Nontrivial(wk.Hash64("C16crowd", i))
+	}
+	if c.WantSample() && i%10 == 0 {
+		c.Sample(map[string]interface{}{"stream": "crowd", "plan": i, "connections": nConn, "registrations": len(want), "proxy_subscriptions": nProxy, "removal": how})
+	}
 }
 
 func c16one(c *wk.Ctx, i int, rng *rand.Rand, w *world, sess bus.Session, name string) {
